@@ -6,8 +6,9 @@ any permutation of the entries), and `facts.json` tripwires: the inventory of `r
 `go` statements and package-level mutable variables of the simulator, compared with the reviewed list
 below (a new or changed site has no lemma/review => the obligation is open).
 What Lean cannot exhibit (goroutine interleavings, another process) is checked dynamically and labelled:
-every input runs 3x in one process (fresh parse, fresh parse, re-used parsed program), the whole stream
-runs again in a second process, and the outputs must be bit-identical."""
+every input runs 3x in one process (fresh parse, fresh parse, re-used parsed program), then on three
+more machines concurrently (goroutines) next to a machine of another variant, then the used program object
+and a fresh parse run on OTHER data; the whole stream runs again in a second process; outputs must be bit-identical."""
 import json
 import os
 import re
@@ -89,7 +90,7 @@ def run(ck):
             ck.known.append(f"KNOWN-FINDING: property=C08 {k['id']}: {k['short']}")
     for i in range(len(ins)):
         meta, res = cpu.parse_go(go[i])
-        n_runs += len(res) * 3
+        n_runs += len(res) * 9   # 3 repeats + 4 concurrent machines + fresh/re-used on other data
         ref = cpu.parse_ref(lean[i])
         if ref["stop"].startswith("notwf"):
             continue   # outside the supported subset: a Go panic may leave a map-order-dependent partial state
@@ -120,7 +121,7 @@ def run(ck):
     ck.cov["distinct_nontrivial"] += len({l.split(" ; ", 2)[2] for l in ins})
     ck.cov["traces_validated_against_impl"] = ck.cov["evaluations"]
     ck.cov["rule"] = ("obligations = order-independence theorems for the map-range loops of risc/app.go (Props/C15.lean) ; evaluations = runs compared for bit-identity of (status, cycles, registers, memory hash): "
-                      "each (program, variant, parallelism 1..3) 3x in one process (the third on a parsed program already used by another machine) and once more in a second process; distinct_nontrivial = distinct inputs")
+                      "each (program, variant, parallelism 1..3) 3x in one process (the third on a parsed program already used by another machine), 3 more machines of the configuration and one of another variant CONCURRENTLY in goroutines, the used program object and a fresh parse on other data, and once more in a second process; distinct_nontrivial = distinct inputs")
     ck.cov["samples"] += [{"program": cpu.case_of(ins[0])["prog"], "first_config": go[0].split(" @@ ")[1][:200]}] if ins else []
     seen = set()
     for b in bad:
